@@ -3,6 +3,8 @@ import Teleport.Drv.C02
 import Teleport.Drv.C03
 import Teleport.Drv.C05
 import Teleport.Drv.C05j
+import Teleport.Drv.C05t
+import Teleport.Drv.C05w
 import Teleport.Drv.C05h
 import Teleport.Drv.C06
 import Teleport.Drv.C07
@@ -12,6 +14,7 @@ import Teleport.Drv.C10
 import Teleport.Drv.C11
 import Teleport.Drv.C12
 import Teleport.Drv.C13
+import Teleport.Drv.C13G
 import Teleport.Drv.C14
 import Teleport.Drv.C15
 import Teleport.Drv.C16
@@ -23,7 +26,7 @@ open Teleport.Drv
 
 /-- every case kind of the line protocol with its model handler (one list per property module). -/
 def allHandlers : List (String × (Fields → String)) :=
-  handlersC01 ++ handlersC02 ++ handlersC03 ++ handlersC05 ++ handlersC05j ++ handlersC05h ++ handlersC06 ++ handlersC07 ++ handlersC08 ++ handlersC09 ++ handlersC10 ++ handlersC11 ++ handlersC12 ++ handlersC13 ++ handlersC14 ++ handlersC15 ++ handlersC16 ++ handlersC17 ++ handlersC18 ++ handlersC19 ++ handlersC20
+  handlersC01 ++ handlersC02 ++ handlersC03 ++ handlersC05 ++ handlersC05j ++ handlersC05t ++ handlersC05w ++ handlersC05h ++ handlersC06 ++ handlersC07 ++ handlersC08 ++ handlersC09 ++ handlersC10 ++ handlersC11 ++ handlersC12 ++ handlersC13 ++ handlersC13G ++ handlersC14 ++ handlersC15 ++ handlersC16 ++ handlersC17 ++ handlersC18 ++ handlersC19 ++ handlersC20
 
 def handle (line : String) : String :=
   match (line.trimAscii.toString.splitOn " ").filter (· ≠ "") with
